@@ -958,8 +958,19 @@ binary_add_fns: dict[str, BinaryCallable] = {
     "-": lambda x, y: x - y,
 }
 
+def binary_round_fn(
+    x: Union[int, float], y: Union[int, float]
+) -> Union[int, float]:
+    if isinstance(y, int):
+        # round() of an integer computes 10**(-y): a digit count like
+        # -10**400 (written "- 1e400") must not make it run for ever.
+        # Beyond +-1000 digits the result cannot change any more.
+        y = max(-1000, min(1000, y))
+    return round(x, y)  # type: ignore[arg-type]
+
+
 binary_round_fns: dict[str, BinaryCallable] = {
-    "round": round,  # type:ignore
+    "round": binary_round_fn,
 }
 
 binary_cmp_fns: dict[str, BinaryCallable] = {
